@@ -33,7 +33,8 @@ class Boom(Exception):
     pass
 
 
-def run_case(case):
+def run_case(case, peek=None):
+    """peek(scenario, frames of connection 1, frames of connection 2): lets C07 judge the pongs of the same runs"""
     import websocket
 
     obs = Obs()
@@ -118,6 +119,8 @@ def run_case(case):
     if main.exc is not None:
         obs.fail(exc_bucket(f"{tag}|run_forever-raised", main.exc), f"{type(main.exc).__name__}: {main.exc}")
         return _cls(obs, case)
+    if peek is not None:
+        peek(sc, all_frames, frames2)
     if case.get("secure") and (not net.sockets or net.sockets[0].tls is None):
         obs.fail("tls|not-wrapped", "wss URL but the transport was not wrapped")
     t0 = sc.peers[0][1].established_at or 0.0
